@@ -44,6 +44,7 @@ type Solver struct {
 	timeoutMS  int
 	cache      map[string]satResult
 	cacheHits  int
+	useEval    bool
 }
 
 func newSolver(bin string, args []string, timeoutMS int, transcript string) (*Solver, error) {
@@ -72,6 +73,7 @@ func newSolver(bin string, args []string, timeoutMS int, transcript string) (*So
 	s.send("(set-option :print-success false)")
 	if strings.Contains(bin, "z3") {
 		s.send(fmt.Sprintf("(set-option :timeout %d)", timeoutMS))
+		s.useEval = true
 	}
 	s.send("(set-option :produce-models true)")
 	s.send("(set-logic ALL)")
@@ -228,6 +230,38 @@ func (s *Solver) model(lits []*Term, vars []*Term) (map[string]uint64, bool) {
 	s.nSat++
 	m := map[string]uint64{}
 	if len(vars) == 0 {
+		return m, true
+	}
+	if s.useEval {
+		// z3: (eval v) is evaluated lazily; (get-value ...) builds a complete model of every
+		// define-fun and takes ~0.5 s with a few thousand definitions
+		for _, v := range vars {
+			s.send("(eval " + v.name + ")")
+		}
+		for _, v := range vars {
+			val := s.readLine()
+			var x uint64
+			switch {
+			case val == "true":
+				x = 1
+			case val == "false":
+				x = 0
+			case strings.HasPrefix(val, "#x"):
+				x, _ = strconv.ParseUint(val[2:], 16, 64)
+			case strings.HasPrefix(val, "#b"):
+				x, _ = strconv.ParseUint(val[2:], 2, 64)
+			case strings.HasPrefix(val, "(_ bv"):
+				f := strings.Fields(val[5:])
+				x, _ = strconv.ParseUint(f[0], 10, 64)
+			default:
+				if strings.HasPrefix(val, "(error") {
+					return nil, false
+				}
+				// unconstrained variable echoed back: any value will do
+				x = 0
+			}
+			m[v.name] = x
+		}
 		return m, true
 	}
 	var sb strings.Builder
